@@ -7,3 +7,6 @@ mod prompt;
 mod validator;
 
 pub use input_backend::ReedlineInputBackend;
+
+#[cfg(feature = "verif-hooks")]
+pub use history::verif_reedline_history;
